@@ -8,13 +8,8 @@ from .. import paths as P
 
 
 def subjects():
-    out = []
-    for ctx in (False, True):
-        tree, src = load.runtime_ast(ctx)
-        out.append((f'translator.py:_main_template[ctx={int(ctx)}]', tree, ctx, 'sourcer/translator.py'))
-    ptree = load.parse('sourcer/parser.py')
-    out.append(('sourcer/parser.py (generated)', ptree, None, 'sourcer/parser.py'))
-    return out
+    from .. import routes
+    return [(what, tree, None, rel) for what, tree, rel in routes.runtime_subjects()]
 
 
 def run(rep, tier):
@@ -51,7 +46,7 @@ def run(rep, tier):
         rep.rule(rid, txt)
     for what, tree, ctx, rel in subjects():
         name, fn, call = trampoline.find_trampoline(tree, what)
-        uses_ctx = ctx if ctx is not None else (fn.args.args and fn.args.args[0].arg == '_ctx')
+        uses_ctx = bool(fn.args.args and fn.args.args[0].arg == '_ctx')
         if ctx is None:
             # the CALL tag inside a generated parser is whatever it was generated with
             cc = None
@@ -72,7 +67,7 @@ def run(rep, tier):
         rep.obligations += 7
         rep.discharged += 7 - min(7, nbad)
         for rule, msg in bad:
-            rep.add(Finding(rule, f'{rel}:{name}', f'ctx={ctx}', msg, f'{rel}:{name} (line {fn.lineno})',
+            rep.add(Finding(rule, f'{rel}:{name}', f'ctx={int(uses_ctx)}', msg, f'{rel}:{name} (line {fn.lineno})',
                             {'function': ast.unparse(fn)}))
     rep.floor('driver functions analysed', rep.instances.get('driver functions analysed', 0), 3)
     # emission side: every rule invocation is a request (E1 leaf specs for Ref / literals)
